@@ -737,6 +737,8 @@ func (v *v41) fingerprint() string {
 		res, ok := v.probeCall(c0, "lockt", ops...)
 		return res, 1, ok
 	}))
+	sb.WriteString(countsMarker)
+	sb.WriteString(v.stateCounts())
 	return sb.String()
 }
 
